@@ -10,7 +10,7 @@ from pymap.concurrent import Event
 from pymap.config import IMAPConfig
 from pymap.context import socket_info, connection_exit
 from pymap.exceptions import NotAllowedError, NotSupportedError, \
-    CloseConnection, MailboxReadOnly
+    CloseConnection, MailboxReadOnly, MailboxNotFound
 from pymap.fetch import MessageAttributes
 from pymap.interfaces.login import LoginInterface
 from pymap.interfaces.session import SessionInterface
@@ -294,9 +294,12 @@ class ConnectionState:
         return ResponseOk(cmd.tag, cmd.command + b' completed.'), updates
 
     async def do_close(self, cmd: CloseCommand) -> _CommandRet:
-        if not self.selected.readonly:
-            await self.session.expunge_mailbox(self.selected)
-        self._selected = None
+        # RFC 3501 6.4.2: the connection returns to the authenticated state
+        # whatever becomes of the implicit expunge.
+        selected, self._selected = self.selected, None
+        if not selected.readonly:
+            with suppress(MailboxNotFound):  # deleted by another session
+                await self.session.expunge_mailbox(selected)
         return ResponseOk(cmd.tag, cmd.command + b' completed.'), None
 
     async def do_expunge(self, cmd: ExpungeCommand) -> _CommandRet:
